@@ -115,7 +115,7 @@ class AbstractAst:
         return
 
     def parse(self):
-        if self.spec is None:
+        if self.spec is None or len(self.modular_spec + self.spec) == 0:
             raise RTAMTException('STL specification if empty')
 
         #TODO How to handle sub-formulas?
